@@ -1040,6 +1040,7 @@ impl Property for C14 {
             canonical_policy: false,
             benign: false,
             faults: vec![],
+            original_btor2: None,
         };
         let obs = scn.execute(false);
         acc.sim_steps += obs.tstats.events;
